@@ -516,7 +516,76 @@ def native_stage(chk, pid):
         f = os.path.join(hv.OUTROOT, "replay", "%s-native-distance.S" % pid)
         open(f, "w").write(mine[1])
         chk.add_violation("native-distances", f, mine[2], True)
+    cli_stage(chk, exe, pid)
     return exe
+
+
+CLI_SOURCE = """BR start
+DATA 16383
+table
+DATA -1
+DATA 2147483647
+FUNC f
+LDAC -2147483648
+LDBC 4294967295
+LDAM table
+STAM table
+%s
+BR f
+start
+PROC main
+LDAP table
+LDAC 268435456
+BRZ far
+BRN f
+LDAI 255
+LDBI 256
+STAI 4095
+OPR ADD
+%s
+far
+LDBM 1
+LDAC 0
+STAI 2
+LDAC 0
+OPR SVC
+"""
+
+
+def cli_stage(chk, exe, pid):
+    """the hexasm EXECUTABLE (hexasm.cpp: openFile, argument handling) against the in-process pipeline the other stages
+    validate: byte-identical image (`-o`), identical `--instrs` listing, for a source with boundary immediates, forward and
+    backward references of 1..4 bytes, DATA words and FUNC/PROC symbols"""
+    hexasm = os.path.join(chk.out, "hexasm_cli")
+    hv.build_native(os.path.join(hv.REPO, "hexasm.cpp"), hexasm, extra=[os.path.join(hv.REPO, "hex.cpp")], opt="-O1", hooks=False)
+    d = os.path.join(chk.out, "scratch", "cli")
+    os.makedirs(d, exist_ok=True)
+    src = CLI_SOURCE % ("LDAC 7\n" * 300, "LDAC 2147483647\n" * 600)
+    open(os.path.join(d, "p.S"), "w").write(src)
+    rc, o, e, _ = hv.run([exe, "emit", "p.S", "ref.bin", "ref.lst"], cwd=d, timeout=120)
+    if rc != 0:
+        raise hv.Infra("in-process assembly of the CLI test source failed: " + (o + e)[-300:])
+    why = ""
+    rc1, o1, e1, _ = hv.run([hexasm, "p.S", "-o", "cli.bin"], cwd=d, timeout=120)
+    rc2, o2, e2, _ = hv.run([hexasm, "p.S", "--instrs"], cwd=d, timeout=120)
+    ref_bin = open(os.path.join(d, "ref.bin"), "rb").read()
+    ref_lst = open(os.path.join(d, "ref.lst")).read()
+    try:
+        cli_bin = open(os.path.join(d, "cli.bin"), "rb").read()
+    except OSError:
+        cli_bin = None
+    if rc1 != 0 or cli_bin is None:
+        why = "hexasm p.S -o cli.bin: status %s, %s" % (rc1, "no output file" if cli_bin is None else (e1 or o1)[-200:])
+    elif cli_bin != ref_bin:
+        k = next((i for i in range(min(len(cli_bin), len(ref_bin))) if cli_bin[i] != ref_bin[i]), min(len(cli_bin), len(ref_bin)))
+        why = "image written by the hexasm executable differs from the in-process image at byte %d (lengths %d / %d)" % (k, len(cli_bin), len(ref_bin))
+    elif rc2 != 0 or o2 != ref_lst:
+        why = "`hexasm --instrs` output differs from the in-process listing"
+    chk.native.append({"stage": "hexasm executable vs the in-process pipeline on one source file: image (-o) byte-identical, --instrs listing identical", "ok": not why, "why": why})
+    if why and not chk.violations:
+        f = os.path.join(hv.OUTROOT, "replay", "%s-native-cli.S" % pid)
+        open(f, "w").write(src)
+        chk.add_violation("native-cli", f, why, True)
 
 
 def native_only(chk):
